@@ -202,8 +202,18 @@ SUBMODULES = [
 ]
 # noinspection PyDictCreation
 FUNCTIONS = {}
-FUNCTIONS['ARRAY'] = lambda *args: np.asarray(args, object).view(Array)
-FUNCTIONS['ARRAYROW'] = lambda *args: np.asarray(args, object).view(Array)
+
+
+def _array(*args):
+    # A signed number (e.g., `-2`) arrives as a 0-d array: keep its value.
+    return np.asarray([
+        v.ravel()[0] if isinstance(v, np.ndarray) and not v.shape else v
+        for v in args
+    ], object).view(Array)
+
+
+FUNCTIONS['ARRAY'] = _array
+FUNCTIONS['ARRAYROW'] = _array
 
 
 def get_error(*vals):
